@@ -171,13 +171,29 @@ def rule_a(ctx: Context, R: Reporter, cc: ClassInfo, v: FuncInfo):
         for (a, p) in facts:
             if isinstance(a, ast.Name) and p:
                 ds = flow.reaching(nd, a.id)
-                if ds and all(d.value is not None and "intersection" in norm_text(d.value) and "periodic" in norm_text(d.value) and "reflective" in norm_text(d.value) for d in ds):
+                if ds and all(d.value is not None and ("intersection" in norm_text(d.value) or "&" in norm_text(d.value)) and "periodic" in norm_text(d.value) and "reflective" in norm_text(d.value) for d in ds):
                     overlap = True
+            elif p and ("intersection" in norm_text(a) or "&" in norm_text(a)) and "periodic" in norm_text(a) and "reflective" in norm_text(a):
+                overlap = True
             for fld in ("periodic", "reflective"):
-                if (not p) and isinstance(a, ast.Call) and dotted(a.func) == "all" and fld in norm_text(a):
-                    g = a.args[0] if a.args else None
-                    t = norm_text(g.elt) if isinstance(g, ast.GeneratorExp) else ""
-                    if "isinstance(i,int)" in t and "0<=i<self.n_dim" in t:
+                if (not p) and isinstance(a, ast.Call) and dotted(a.func) == "all" and a.args and isinstance(a.args[0], (ast.GeneratorExp, ast.ListComp)):
+                    g = a.args[0]
+                    gen = g.generators[0]
+                    if not (isinstance(gen.iter, ast.Attribute) and gen.iter.attr == fld and isinstance(gen.target, ast.Name)):
+                        continue
+                    lv = gen.target.id
+                    conj = g.elt.values if isinstance(g.elt, ast.BoolOp) and isinstance(g.elt.op, ast.And) else [g.elt]
+                    has_int = any(isinstance(c, ast.Call) and dotted(c.func) == "isinstance" and len(c.args) == 2 and isinstance(c.args[0], ast.Name) and c.args[0].id == lv and "int" in norm_text(c.args[1]) for c in conj)
+                    has_rng = False
+                    for c in conj:
+                        if isinstance(c, ast.Compare) and len(c.ops) == 2 and isinstance(c.ops[0], ast.LtE) and isinstance(c.ops[1], ast.Lt) and const_value(c.left) == 0 \
+                                and isinstance(c.comparators[0], ast.Name) and c.comparators[0].id == lv and norm_text(c.comparators[1]) == "self.n_dim":
+                            has_rng = True
+                    lows = [c for c in conj if isinstance(c, ast.Compare) and len(c.ops) == 1 and ((isinstance(c.ops[0], ast.GtE) and isinstance(c.left, ast.Name) and c.left.id == lv and const_value(c.comparators[0]) == 0)
+                                                                                             or (isinstance(c.ops[0], ast.LtE) and const_value(c.left) == 0 and isinstance(c.comparators[0], ast.Name) and c.comparators[0].id == lv))]
+                    highs = [c for c in conj if isinstance(c, ast.Compare) and len(c.ops) == 1 and ((isinstance(c.ops[0], ast.Lt) and isinstance(c.left, ast.Name) and c.left.id == lv and norm_text(c.comparators[0]) == "self.n_dim")
+                                                                                              or (isinstance(c.ops[0], ast.Gt) and norm_text(c.left) == "self.n_dim" and isinstance(c.comparators[0], ast.Name) and c.comparators[0].id == lv))]
+                    if has_int and (has_rng or (lows and highs)):
                         rng[fld] = True
     R.check("C18.a", "overlapping periodic/reflective indices are rejected", overlap, v, v.node, msg=f"{v.short}: no error site for a non-empty intersection of periodic and reflective", key="constraint:overlap")
     for fld, ok in rng.items():
